@@ -335,8 +335,8 @@ PROPS['C19'] = dict(
                 'during the case is a violation (keyed by kind + first Draco frame of both stacks). Evidence lists the job-kind pairs that actually overlapped in time.'),
     level_note='Covers the schedules the stress runs produced, not all interleavings. File I/O factories are not exercised (only ...ToBuffer / ...FromBuffer APIs), as the property states. TSan only understands synchronisation it intercepts; the harness uses std::thread, std::mutex and atomics only.',
     rule='one case = one job pool x thread count x repetition; non-trivial = at least one pair of job executions overlapped in time; distinct = case PRNG state.',
-    runs=[dict(variant='tsan', harness='c19_concurrent', cases=dict(quick=320, thorough=12000)),
-          dict(variant='plain', harness='c19_concurrent', tag='volume', cases=dict(quick=4000, thorough=150000))],
+    runs=[dict(variant='tsan', harness='c19_concurrent', cases=dict(quick=320, thorough=12000), extra=['--max-deaths', 4, '--max-violations', 6]),
+          dict(variant='plain', harness='c19_concurrent', tag='volume', cases=dict(quick=4000, thorough=150000), extra=['--max-deaths', 20])],
     min_nontrivial=2000,
     require_counters={'threads/16': 200, 'threads/2': 200, 'overlap/encode-mesh+decode': 500, 'overlap/encode-mesh+encode-mesh': 500, 'overlap/decode+decode': 300, 'overlap/keyframes+encode-pc': 0,
                       'overlap/obj-encode+ply-encode': 300, 'overlapping_execution_pairs': 500000, 'tsan_report_blocks': 0, 'job_executions': 200000},
